@@ -416,7 +416,7 @@ impl Display for StandardLinearModel {
         let mut is_first = true;
         let offset = if self.objective_offset.is_zero() {
             "".to_string()
-        } else if float_lt(self.objective_offset, 0.0) {
+        } else if self.objective_offset < 0.0 {
             format!(" - {}", self.objective_offset.abs())
         } else {
             format!(" + {}", self.objective_offset)
@@ -460,7 +460,8 @@ impl Display for StandardLinearModel {
 /// * `value` - Coefficient value
 /// * `is_first` - Whether this is the first term in an expression
 pub fn format_var(name: &str, value: f64, is_first: bool) -> String {
-    let sign = if float_lt(value, 0.0) {
+    // exact sign test: a tiny negative coefficient is still negative
+    let sign = if value < 0.0 {
         "- "
     } else if is_first {
         ""
